@@ -220,9 +220,20 @@ func malformedMetadata(r *sim.R, wd *world, m *model.Store, dirTS int64) *sim.Vi
 			add(b, "block length fields 0xffffffff")
 		}
 	}
+	bigClamps := 0
 	for i, v := range variants {
-		if clampMetaLens(v, 1<<28) {
-			descr[i] += " (length fields clamped to 256 MiB)"
+		// the reader allocates twice the declared length before it reads a byte (the known
+		// excessive-allocation finding): two variants per run keep length fields of up to 256 MiB
+		// so that the finding stays visible, the others are clamped to 4 MiB (a run would
+		// otherwise spend minutes zeroing memory)
+		probe := append([]byte(nil), v...)
+		if bigClamps < 2 && clampMetaLens(probe, 1<<22) {
+			bigClamps++
+			if clampMetaLens(v, 1<<28) {
+				descr[i] += " (length fields clamped to 256 MiB)"
+			}
+		} else if clampMetaLens(v, 1<<22) {
+			descr[i] += " (length fields clamped to 4 MiB)"
 		}
 		wd.fs.WriteRaw(tree, metaPath, v)
 		wd.fs.Restart("r")
